@@ -316,16 +316,30 @@ func (e *Env) runFSCase(c fsCase, idx int) (*Obs, error) {
 			return fmt.Sprintf("%d|%s", r.Exit, r.Stdout)
 		}
 		l0 := listIn()
-		before := hashTree(levelDir)
-		r := st.runIn(levelDir[target], nil, nil, 15*time.Second, "--json", "init")
-		after := hashTree(levelDir)
-		changed := false
-		for k, v := range before {
-			if nv, ok := after[k]; !ok || nv != v {
-				changed = true
+		// three spellings of the same request: `init` in the project directory, `init .`
+		// there, and `init <absolute project directory>` from somewhere else
+		exit, changed, same := 0, false, true
+		for _, form := range [][2]string{{levelDir[target], ""}, {levelDir[target], "."}, {elsewhere, levelDir[target]}} {
+			before := hashTree(levelDir)
+			args := []string{"--json", "init"}
+			if form[1] != "" {
+				args = append(args, form[1])
+			}
+			r := st.runIn(form[0], nil, nil, 15*time.Second, args...)
+			after := hashTree(levelDir)
+			for k, v := range before {
+				if nv, ok := after[k]; !ok || nv != v {
+					changed = true
+				}
+			}
+			if r.Exit != 0 {
+				exit = r.Exit
+			}
+			if l0 != listIn() {
+				same = false
 			}
 		}
-		initRec = map[string]any{"ran": true, "exit": r.Exit, "changed_existing": changed, "same_items": l0 == listIn()}
+		initRec = map[string]any{"ran": true, "exit": exit, "changed_existing": changed, "same_items": same}
 	}
 	cfg := map[string]any{"stores": c.Stores, "start": c.Start, "spell": c.Spell,
 		"files": map[string]any{"plans": c.Files.Plans, "events": c.Files.Events, "lock": c.Files.Lock}}
